@@ -17,12 +17,27 @@ def Tdl.afterTx (proc : Proc α) (c : Tdl α) (n : Nat) : Tdl α :=
 theorem genIR_delays (proc : Proc α) (c : Tdl α) (pos n : Nat) : (genIR proc c pos n).delays = c.delays := rfl
 theorem genIR_n (proc : Proc α) (c : Tdl α) (pos n : Nat) : (genIR proc c pos n).n = n := rfl
 
+omit [CommSemiring α] in
+theorem signalOk_siso (c : Tdl α) (hant : c.ant = none) (v : List α) : c.signalOk [v] = true := by
+  simp [Tdl.signalOk, hant]
+
+omit [CommSemiring α] in
+theorem signalOk_mimo {β : Type} (c : Tdl α) (nr nt : Nat) (hant : c.ant = some (nr, nt)) (f : Nat → β)
+    (g : β → List α) : c.signalOk ((tab (c.dims nr nt).2 f).map g) = true := by
+  simp [Tdl.signalOk, hant, tab_length]
+
+omit [CommSemiring α] in
+theorem signalOk_mimo' (c : Tdl α) (nr nt : Nat) (hant : c.ant = some (nr, nt)) (f : Nat → List α) :
+    c.signalOk (tab (c.dims nr nt).2 f) = true := by
+  simp [Tdl.signalOk, hant, tab_length]
+
 theorem tdl_corrupt_siso (proc : Proc α) (c : Tdl α) (hant : c.ant = none) (mem : Nat)
     (hmem : c.mem = .ok mem) (n : Nat) (xf : Nat → α) :
     c.corrupt proc [tab n xf]
       = .ok (c.afterTx proc n, [convSpecSiso (genIR proc c c.pos n) n mem xf]) := by
   unfold Tdl.corrupt
-  simp only [numSymbols, tab_length, hmem, hant, bind, Except.bind, pure, Except.pure]
+  simp only [numSymbols, tab_length, hmem, hant, bind, Except.bind, pure, Except.pure,
+    signalOk_siso c hant, Bool.not_true, Bool.false_eq_true, if_false]
   rw [corruptSiso_eq]
   simp only [Tdl.afterTx, hant]
   rfl
@@ -34,7 +49,7 @@ theorem tdl_corrupt_mimo (proc : Proc α) (c : Tdl α) (nr nt : Nat) (hant : c.a
              convSpec (genIR proc c c.pos n) c.switched (c.dims nr nt).1 (c.dims nr nt).2 n mem xf) := by
   unfold Tdl.corrupt
   simp only [numSymbols_tab _ _ _ hIn, hmem, hant, bind, Except.bind, pure, Except.pure, tab_length,
-    Nat.lt_irrefl, if_false]
+    signalOk_mimo' c nr nt hant, Bool.not_true, Bool.false_eq_true, ne_eq, not_true_eq_false, if_false]
   rw [corruptMimo_eq]
   simp only [Tdl.afterTx, hant]
   rfl
